@@ -138,6 +138,9 @@ func c02Sub(name, dir string, qn, tn int) *engine.Sub {
 			ctx.Outcome(errLabel(e1))
 			if dir == "sound" && bad > 0 && n <= 3 {
 				oddHooksRefuse(ctx, cs, inv, ld, "a link of "+c02Describe(cs)+" widens the command")
+				if n <= 2 {
+					loaderPanicsRefuse(ctx, cs, inv, ld, prf, "a link of "+c02Describe(cs)+" widens the command")
+				}
 			}
 			for k, e := range []error{e1, e2} {
 				api := [2]string{"ExecutionAllowed", "ExecutionAllowedWithArgsHook"}[k]
